@@ -12,6 +12,12 @@ NOT_APPLICABLE = {
 }
 
 CLAIMS = {
+    "C10": {
+        "text": "Decides four structural clauses, not the entailment arithmetic: (R10.1) in every transformer of Partially_Reduced_Product each statement block applies the same operation with corresponding arguments to both components, in every branch (recycle/refine pairs allowed); (R10.2) the ten predicates combine the component answers with the connective that is sound for an intersection; (R10.3) inside the four reductions a component is changed only by a meet, a nested reduction or a swap with a freshly built EMPTY element; (R10.4) the symmetric halves of Congruences_Reduction and Shape_Preserving_Reduction are mirror images modulo d1 <-> d2. Necessary for 'transformers contain the exact image of the intersection' and 'reductions never lose the intersection'. That the constraints a reduction transfers are entailed by the partner (frequency / congruence arithmetic) is numeric and NOT decided.",
+        "design_ref": "DESIGN.md §3 C10",
+        "note": "transformers are judged on Partially_Reduced_Product<C_Polyhedron, Grid, Constraints_Reduction>; reductions as template patterns (dependent calls by name)",
+        "technique": "sibling-agreement (d1 vs d2, mirrored loops) and allowlist rules over instantiated ASTs and template patterns",
+    },
     "C09": {
         "text": "Decides three structural clauses, not the union-preservation arithmetic: (R9.1) copy-on-write — in Determinate<PSET> every non-const use of the shared representation is preceded by mutate() on every path, mutate() copies before it releases, and nothing outside Determinate reaches the representation; (R9.2) lifting — each of the 28 per-disjunct transformers of Pointset_Powerset (checked on the C_Polyhedron, NNC_Polyhedron and Grid instantiations) applies the same-named base operation with its own parameters in order to every disjunct (full begin..end traversal, no break/return/continue); (R9.3) dimension-changing members update the powerset's own space_dim on every path. Necessary for 'copies are unaffected by later changes to the original' and 'operations act on the union as the base operation acts on each disjunct'. That omega-reduction, pairwise merge, collapse and linear_partition preserve/enlarge the union as documented is numeric and NOT decided.",
         "design_ref": "DESIGN.md §3 C09",
